@@ -75,13 +75,13 @@ type lenv struct {
 }
 
 type lenSim struct {
-	u       *Universe
-	ops     *Ops
-	tracked map[*types.Var]string
-	stores  map[string][]lform // tracked field name -> forms stored (deltas for accumulations)
+	u        *Universe
+	ops      *Ops
+	tracked  map[*types.Var]string
+	stores   map[string][]lform // tracked field name -> forms stored (deltas for accumulations)
 	storePos map[string]string
-	writes  []string // slice identities written to the sink, in program order
-	depth   int
+	writes   []string // slice identities written to the sink, in program order
+	depth    int
 }
 
 func (s *lenSim) sliceID(v ssa.Value, env *lenv) string {
